@@ -122,7 +122,7 @@ func main() {
 	restRe := regexp.MustCompile(`c\.(\w+) = raw\w+\[offset:\]`)
 	fixRe := regexp.MustCompile(`c\.(\w+) = raw\w+\[offset ?: ?offset ?\+ ?(\d+)\]`)
 	// pad lengths the decoder derives from the (constant) parameter-block length
-	fixOverride := map[string]int{"SessionSetupAndxResponse.Pad": 1}
+	fixOverride := map[string]int{"SessionSetupAndxResponse.Pad": 1, "SessionSetupAndxRequest.Pad": 1} // 22 parameter bytes + 3 + two passwords of equal length: odd
 	var cmds []cmd
 	for _, cn := range ctors {
 		obj := pkg.Types.Scope().Lookup(cn)
